@@ -239,6 +239,12 @@ def check_uci(pid, tier, seed):
     model_check(chk, "Uci", cfg="Uci" if quick else "UciBig", workers=4)
     model_check(chk, "Uci", cfg="UciPinned", workers=2, expect_violation=True)
     model_check(chk, "Uci", cfg="UciLive", workers=2)        # liveness: every owed bestmove is eventually printed (fair SearchFinish)
+    if pid == "C07":
+        # the same session at the grain of its threads; refinement of Uci.tla checked by TLC; two counterexample guards
+        model_check(chk, "UciThreads", cfg="UciThreads" if quick else "UciThreadsBig", workers=4)
+        model_check(chk, "UciThreads", cfg="UciThreadsShared", workers=2, expect_violation=True)
+        model_check(chk, "UciThreads", cfg="UciThreadsFirst", workers=2, expect_violation=True)
+        model_check(chk, "UciThreads", cfg="UciThreadsLive", workers=2)
     pool = Pool(wvbin, wd, seed)
     gens = gen_sequences(chk, wd, seed, 90 if quick else 2500)
     sessions = []
@@ -269,6 +275,9 @@ def check_uci(pid, tier, seed):
         sessions.append((100000 + j, True, "immediate", concretize({"start": "book", "cmds": cmdsq}, pool, rnd)))
     traces = run_sessions(cli, wd, "uci", sessions)
     validate(chk, traces, pid)
+    if pid == "C07":
+        import threadsessions
+        threadsessions.thread_part(chk, pid, wd, quick, seed)
     st, sample = transcript_stats(traces)
     chk.coverage.update({"evaluations": st["commands"], "distinct_nontrivial": st["go"] if pid == "C07" else st["ucinewgame"],
                          "rule": "UCI sessions: command sequences produced by TLC simulation of Uci.tla (go/stop/position/ucinewgame/isready/quit with the model's internal SearchFinish placed anywhere), instantiated with book, open, terminal, colliding and tiny-tree positions and legal move lists, fed to the real `weechess uci` process with an isready barrier after every command and `.state` after every position; three pacing modes; non-trivial = " + ("go commands" if pid == "C07" else "ucinewgame commands"),
